@@ -44,6 +44,7 @@ LenChoices(pat, n) ==
       [] pat = "mixed"  -> {[i \in 1..n |-> IF i = 1 THEN -1 ELSE Cyc(<<0, 16, 32>>, i)]}
       [] pat = "mixed2" -> {[i \in 1..n |-> IF i = 1 THEN -1 ELSE Cyc(<<32, 16, 16, 0, 48>>, i)]}
       [] pat = "rootlen" -> {[i \in 1..n |-> IF i = 1 THEN 16 ELSE Cyc(<<16, 32>>, i)]}
+      [] pat = "rootmixed" -> {[i \in 1..n |-> IF i = 1 THEN 16 ELSE Cyc(<<-1, 16, 32>>, i)]}    \* seed edge length, some branches without
       [] pat = "all12"  -> {q \in [1..n -> {-1, 16, 32}] : q[1] = -1 /\ \A i \in 2..n : q[i] # -1}
       [] pat = "all012" -> {q \in [1..n -> {-1, 0, 16, 32}] : q[1] = -1 /\ \A i \in 2..n : q[i] # -1}
 StartTrees == {WithKeys(MkTree(p, [i \in 1..Len(p) |-> i], q, r)) :
